@@ -66,6 +66,10 @@ def worker(case, led):
     for trial in range(ntr + 1):
         if trial < ntr:
             terms = real_terms(model, rng, int(rng.integers(1, 6)))
+            # the construction must be covariant under a common scale of the coefficients (units): tiny and huge absolute values
+            sc = [1.0, 2e-10, 1.0, 3e5][trial % 4] if tier != "quick" else [1.0, 2e-10][trial % 2]
+            if sc != 1.0:
+                terms = [t * sc for t in terms]
         else:
             # degenerate term tables (C01's corner cases): multiples of the identity, identities on different dofs, a term and its negative plus a constant
             from renormalizer.model import Op
